@@ -56,8 +56,9 @@ def probe(Color, ColorPair, bulk, v, bgv):
 def regen():
     """CmGen/ParserSeq.lean: the tuple/list branch and the top-level dispatch of parse_color_to_rgb as they read now (the
     `source_*` theorems of CmProps/C14seq.lean identify them with the model's parseColor)"""
-    from translate import parserseq, api
+    from translate import parserseq, parsersrc, api
     parserseq.generate()
+    parsersrc.generate()        # (CmProps/C14cap.lean states the parser's error kinds about the image of the whole function)
     api.generate()              # CmGen/Api.lean: Color._parse / ColorPair.__init__ as they read now (CmProps/C14api.lean)
 
 
